@@ -1911,3 +1911,118 @@ func ruleWIN2(c *Ctx) []Ob {
 	}
 	return softenUndecided(o.list)
 }
+
+// ---------------------------------------------------------------- PLAN10
+
+// PLAN10: an operation that takes a query answers it from the query plan only.
+// From every exported function of the root package with a *query.Query
+// parameter, the code statically reachable WITHOUT entering a plan node (a type
+// with Callback, or Run(store.Tx)) performs no Tx.Get on a document-record key
+// and opens no cursor on the document or index layouts itself: FindFirst,
+// Exists, Count and ForEach cannot grow a lookup path of their own whose
+// reading of the criteria differs from the filter's (an `_id == "$parent"`
+// operand is a field reference for the filter, a literal key for a point
+// lookup).
+func rulePLAN10(c *Ctx) []Ob {
+	o := newObs(c, "PLAN10")
+	r := c.Roles()
+	isPlanNode := func(fn *ssa.Function) bool {
+		n := recvNamed(fn)
+		if n == nil {
+			return false
+		}
+		ms := c.Prog.MethodSets.MethodSet(types.NewPointer(n))
+		for i := 0; i < ms.Len(); i++ {
+			nm := ms.At(i).Obj().Name()
+			if nm == "Callback" || nm == "Run" {
+				if n.Obj().Pkg() != nil && n.Obj().Pkg().Path() == c.ModPath {
+					return true
+				}
+			}
+		}
+		return false
+	}
+	docGets := map[*ssa.Function]string{}
+	for _, s := range r.model.sinks {
+		if s.Op == "Get" && r.DocSkel != "" && sinkHasSkel(s, r.DocSkel) {
+			// a lookup whose value is only compared with nil is an existence probe, not a read of the document
+			read := false
+			if gc, ok := s.Call.(*ssa.Call); ok {
+				for _, v := range resultValues(gc, 0) {
+					for _, ref := range realReferrers(v) {
+						if bo, ok := ref.(*ssa.BinOp); ok && (bo.Op == token.EQL || bo.Op == token.NEQ) && (isNilConst(bo.X) || isNilConst(bo.Y)) {
+							continue
+						}
+						read = true
+					}
+				}
+			}
+			if read {
+				docGets[rootFunc(s.Fn)] = relPath(c, s.Call.Pos())
+			}
+		}
+	}
+	if len(docGets) == 0 {
+		o.add(UNDECIDED, "model", "-", "no Tx.Get on a document-record key found")
+		return o.list
+	}
+	var entries []*ssa.Function
+	for _, fn := range c.LibFuncs {
+		if c.pkgRel(fn) != "" || fn.Parent() != nil || fn.Object() == nil || !fn.Object().Exported() {
+			continue
+		}
+		for _, p := range fn.Params {
+			if pt, ok := p.Type().(*types.Pointer); ok && c.libNamedIs(pt.Elem(), "query", "Query") {
+				entries = append(entries, fn)
+				break
+			}
+		}
+	}
+	sort.Slice(entries, func(i, j int) bool { return c.fname(entries[i]) < c.fname(entries[j]) })
+	for _, e := range entries {
+		seen := map[*ssa.Function]bool{}
+		via := map[*ssa.Function]*ssa.Function{}
+		bad := ""
+		var walk func(f *ssa.Function)
+		walk = func(f *ssa.Function) {
+			if f == nil || seen[f] || !c.IsLib(f) || bad != "" {
+				return
+			}
+			seen[f] = true
+			if isPlanNode(rootFunc(f)) {
+				return
+			}
+			if at, ok := docGets[rootFunc(f)]; ok {
+				path := c.fname(f)
+				for g := via[f]; g != nil; g = via[g] {
+					path = c.fname(g) + " -> " + path
+				}
+				bad = fmt.Sprintf("%s (Tx.Get at %s)", path, at)
+				return
+			}
+			allCalls(f, func(call ssa.CallInstruction) {
+				if g := staticCallee(call); g != nil {
+					g = c.declared(g)
+					if !seen[g] {
+						via[g] = f
+					}
+					walk(g)
+				}
+			})
+			for _, a := range f.AnonFuncs {
+				if !seen[a] {
+					via[a] = f
+				}
+				walk(a)
+			}
+		}
+		walk(e)
+		key := c.fname(e) + "/documents come from the plan only"
+		if bad != "" {
+			o.add(VIOLATED, key, relPath(c, e.Pos()), "a point lookup of a document record is reachable outside the query plan: %s - the operation answers some queries without evaluating their criteria the way the filter does", bad)
+		} else {
+			o.add(OK, key, relPath(c, e.Pos()), "no document-record lookup outside the plan nodes (%d functions reachable)", len(seen))
+		}
+	}
+	return o.list
+}
